@@ -159,6 +159,30 @@ func c15(e *Env) {
 			k, ok := n.Call.Args[3].(*ssa.Const)
 			o.Check(ok && k.Value != nil && k.Int64() < 0, g.Where(n), "count "+n.Call.Args[3].String(), "the placeholder substitution replaces only "+n.Call.Args[3].String()+" occurrence(s): a pattern using the same placeholder twice keeps an unreplaced {..}")
 		}
+		// each occurrence is expanded on its own: the substituted value is not taken from a table that earlier
+		// occurrences filled (two occurrences of one name may carry different modifier chains)
+		oi := r.Ob("R3", key+":occurrences-independent", "the value substituted for a placeholder occurrence is computed from that occurrence (name and its own modifiers), not looked up in a cache filled by earlier occurrences")
+		for _, n := range nodes {
+			val := e.fsym().InCtx(n.Ctx, n.Call.Args[2])
+			cached := ""
+			val.Walk(func(z *core.Sym) bool {
+				if z.Op == "elem" && len(z.Args) > 0 {
+					base := z.Args[0]
+					isLocalMap := false
+					base.Walk(func(w *core.Sym) bool {
+						if w.Op == "call" && w.Name == "makemap" {
+							isLocalMap = true
+						}
+						return !isLocalMap
+					})
+					if isLocalMap && (base.Op == "call" || base.Op == "phi") {
+						cached = z.String()
+					}
+				}
+				return cached == ""
+			})
+			oi.Check(cached == "", g.Where(n), "no loop-carried lookup table in the substituted value", "the substituted value can come from "+trunc(cached, 100)+", a table local to the expansion that earlier placeholder occurrences filled: a second occurrence of the same name with a different modifier chain gets the first one's expansion")
+		}
 	}
 	chk("formatter", fi.subst, fi.g, "NewTask")
 	if setOutFn != nil {
@@ -167,8 +191,7 @@ func c15(e *Env) {
 			for _, n := range gs.Nodes {
 				if n.IsCallTo("strings.Replace", "strings.ReplaceAll") && len(n.Call.Args) >= 3 && !(fi.modsFn != nil && inCtxOfFn(n, fi.modsFn)) {
 					if _, lit := n.Call.Args[1].(*ssa.Const); !lit {
-						from := e.symbolizer().InCtx(n.Ctx, n.Call.Args[1]).String()
-						if strings.Contains(from, "FindAllStringSubmatch") {
+						if from := e.fsym().InCtx(n.Ctx, n.Call.Args[1]); from.Op != "lit" {
 							ns = append(ns, n)
 						}
 					}
@@ -406,7 +429,10 @@ func (e *Env) c15Modifiers() {
 			})
 		}
 	}
-	type h struct{ key, desc string; ok bool }
+	type h struct {
+		key, desc string
+		ok        bool
+	}
 	hasRe := func(pred func(string) bool) bool {
 		for _, x := range regexes {
 			if pred(x) {
